@@ -41,26 +41,28 @@ impl IhdrData {
         let h = self.height as usize;
         let bpp = self.bpp();
 
+        // Saturate rather than overflow on absurd dimensions; such sizes are rejected by the caller
         fn bitmap_size(bpp: usize, w: usize, h: usize) -> usize {
-            (w * bpp).div_ceil(8) * h
+            (w * bpp).div_ceil(8).saturating_mul(h)
         }
 
         if self.interlaced == Interlacing::None {
-            bitmap_size(bpp, w, h) + h
+            bitmap_size(bpp, w, h).saturating_add(h)
         } else {
-            let mut size = bitmap_size(bpp, (w + 7) >> 3, (h + 7) >> 3) + ((h + 7) >> 3);
+            let pass = |pw: usize, ph: usize| bitmap_size(bpp, pw, ph).saturating_add(ph);
+            let mut size = pass((w + 7) >> 3, (h + 7) >> 3);
             if w > 4 {
-                size += bitmap_size(bpp, (w + 3) >> 3, (h + 7) >> 3) + ((h + 7) >> 3);
+                size = size.saturating_add(pass((w + 3) >> 3, (h + 7) >> 3));
             }
-            size += bitmap_size(bpp, (w + 3) >> 2, (h + 3) >> 3) + ((h + 3) >> 3);
+            size = size.saturating_add(pass((w + 3) >> 2, (h + 3) >> 3));
             if w > 2 {
-                size += bitmap_size(bpp, (w + 1) >> 2, (h + 3) >> 2) + ((h + 3) >> 2);
+                size = size.saturating_add(pass((w + 1) >> 2, (h + 3) >> 2));
             }
-            size += bitmap_size(bpp, (w + 1) >> 1, (h + 1) >> 2) + ((h + 1) >> 2);
+            size = size.saturating_add(pass((w + 1) >> 1, (h + 1) >> 2));
             if w > 1 {
-                size += bitmap_size(bpp, w >> 1, (h + 1) >> 1) + ((h + 1) >> 1);
+                size = size.saturating_add(pass(w >> 1, (h + 1) >> 1));
             }
-            size + bitmap_size(bpp, w, h >> 1) + (h >> 1)
+            size.saturating_add(pass(w, h >> 1))
         }
     }
 }
